@@ -473,6 +473,11 @@ func runResolver(x *runner, sys string, in []byte) string {
 		}
 		return "nonterminating:" + shape
 	}
+	// The same root twice more on one resolver object: whatever the first
+	// call leaves behind in the resolver (parsed markers and constraints are
+	// cached there, failures included) must not turn the answer into a crash.
+	resolveRepeated(&u, 2)
+	x.feature("resolver:repeated-on-one-object:" + sys)
 	if calls > x.sum.MaxSteps {
 		x.sum.MaxSteps = calls
 	}
@@ -514,6 +519,40 @@ func resolveBudget(u *UniCase, budget int64) (*resolve.Graph, error, bool, int64
 	c := ctxClient{u.Client(nil)}
 	v := u.Versions[u.Root]
 	return uni.Resolve(resolverFor(u.Sys), c, budget, u.VK(v.Name, v.Version, resolve.Concrete))
+}
+
+// resolveRepeated resolves the root n times on a single resolver object,
+// each time under its own step budget. Panics propagate to the runner.
+func resolveRepeated(u *UniCase, n int) {
+	base := ctxClient{u.Client(nil)}
+	sw := &swapClient{}
+	res := resolverFor(u.Sys)(sw)
+	v := u.Versions[u.Root]
+	root := u.VK(v.Name, v.Version, resolve.Concrete)
+	for i := 0; i < n; i++ {
+		ctx, cancel := context.WithCancel(context.Background())
+		sw.c = &uni.Counting{C: base, Budget: u.StepBudget(), Cancel: cancel}
+		func() {
+			defer cancel()
+			res.Resolve(ctx, root)
+		}()
+	}
+}
+
+// swapClient forwards to whatever client is current (sequential use only).
+type swapClient struct{ c resolve.Client }
+
+func (s *swapClient) Version(ctx context.Context, vk resolve.VersionKey) (resolve.Version, error) {
+	return s.c.Version(ctx, vk)
+}
+func (s *swapClient) Versions(ctx context.Context, pk resolve.PackageKey) ([]resolve.Version, error) {
+	return s.c.Versions(ctx, pk)
+}
+func (s *swapClient) Requirements(ctx context.Context, vk resolve.VersionKey) ([]resolve.RequirementVersion, error) {
+	return s.c.Requirements(ctx, vk)
+}
+func (s *swapClient) MatchingVersions(ctx context.Context, vk resolve.VersionKey) ([]resolve.Version, error) {
+	return s.c.MatchingVersions(ctx, vk)
 }
 
 type ctxClient struct{ c resolve.Client }
